@@ -19,6 +19,7 @@ import (
 	"github.com/consensys/gnark/constraint"
 	"github.com/consensys/gnark/frontend"
 	"github.com/consensys/gnark/internal/verifh/circ"
+	"github.com/consensys/gnark/internal/verifh/gkrreg"
 	"github.com/consensys/gnark/internal/verifh/ops"
 	"github.com/consensys/gnark/internal/verifh/progen"
 	"github.com/consensys/gnark/internal/verifh/vchoice"
@@ -173,7 +174,7 @@ func families() []family {
 			for i := range Z {
 				api.AssertIsEqual(Z[i], api.Mul(api.Add(s[i], s[2+i]), s[i]))
 			}
-			return sol.Verify("MIMC")
+			return sol.Verify(gkrreg.Name)
 		}},
 		{name: "ext2-constants", nP: 1, nS: 2, def: func(api frontend.API, p, s []frontend.Variable) error {
 			e, err := emulated.NewField[emulated.BN254Fp](api)
@@ -300,6 +301,11 @@ func main() {
 		refs[i] = freshProcess(c)
 	}
 	for name, h := range refs[0] {
+		if strings.HasPrefix(h, "error:") || strings.HasPrefix(h, "panic:") {
+			if !strings.HasPrefix(name, "prog:") { // programs with constant operands may be rejected at compile time
+				c.Fatal("target %s does not compile: %s", name, h)
+			}
+		}
 		if refs[1][name] != h || refs[2][name] != h {
 			c.Violation("c11:cross-process:"+name, map[string]any{"target": name, "hashes": []string{h, refs[1][name], refs[2][name]}})
 		}
